@@ -327,6 +327,28 @@ func (op c11Op) apply(x, y gts.Sequence) interface{} {
 			return "ARGUMENT-MODIFIED by Repair: repairing the same table again gives " + resultDump(gts.FeatureSlice(again)) + " after " + resultDump(gts.FeatureSlice(rep))
 		}
 		return gts.FeatureSlice(rep)
+	case "repair-sources":
+		// Repair on a table whose source class has several members with compound, partly partial locations (what
+		// insert;delete chains leave behind): the table handed over reads the same afterwards
+		L := maxInt(gts.Len(x), 6)
+		i := 1 + mod(op.I, L-3)
+		q := gts.Props{{"organism", "o"}}
+		table := gts.FeatureSlice{
+			gts.NewFeature("source", gts.Join(gts.PartialRange(0, i, gts.Partial5), gts.Range(i+1, L-1)), q.Clone()),
+			gts.NewFeature("source", gts.Order(gts.Range(0, 1), gts.PartialRange(i, i+2, gts.Partial3)), q.Clone()),
+			gts.NewFeature("source", gts.Join(gts.Range(0, i), gts.PartialRange(i+1, L, gts.PartialBoth)).Complement(), q.Clone()),
+		}
+		table = append(table, x.Features()...)
+		before := resultDump(table)
+		rep := gts.Repair(table)
+		if after := resultDump(table); after != before {
+			return "ARGUMENT-MODIFIED by Repair: the table was " + firstDiffContext(before, after) + " and is now " + firstDiffContext(after, before)
+		}
+		again := gts.Repair(table)
+		if resultDump(gts.FeatureSlice(rep)) != resultDump(gts.FeatureSlice(again)) {
+			return "ARGUMENT-MODIFIED by Repair: repairing the same table again gives " + clipStr(resultDump(gts.FeatureSlice(again)), 300) + " after " + clipStr(resultDump(gts.FeatureSlice(rep)), 300)
+		}
+		return gts.FeatureSlice(rep)
 	case "filter":
 		f, err := gts.Selector(op.S)
 		if err != nil {
@@ -420,7 +442,7 @@ var c11Prop = &Prop[c11Case]{ID: "C11", Check: c11Check, Classify: c11Classify, 
 
 func init() { registerReplay(c11Prop) }
 
-var c11OpNames = []string{"insert", "embed", "delete", "erase", "slice", "concat-xy", "concat-yx", "concat-xx", "concat-list", "reverse", "rotate",
+var c11OpNames = []string{"insert", "embed", "delete", "erase", "slice", "concat-xy", "concat-yx", "concat-xx", "concat-list", "repair-sources", "reverse", "rotate",
 	"complement", "transcribe", "withinfo", "withfeatures", "withbytes", "withtopology", "repair", "cutrepair", "cutrepair", "filter", "finsert", "locate", "search"}
 
 func c11GenOp(t *rapid.T, L int, name string) c11Op {
